@@ -1870,7 +1870,10 @@ FID_MMATH = 'src/pharmpy/modeling/math.py'
 FID_TRI = 'src/pharmpy/internals/math.py:triangular_root'
 FID_F2S = 'src/pharmpy/internals/math.py:flattened_to_symmetric'
 FID_JSON = 'src/pharmpy/workflows/results.py:ResultsJSONEncoder'
-FID_PARSE = 'src/pharmpy/tools/external/nonmem/results.py:parse_modelfit_results'
+FID_JSON_DF = 'src/pharmpy/workflows/results.py:_df_to_json'
+FID_JSON_READ = 'src/pharmpy/workflows/results.py:read_results'
+FID_MFR = 'src/pharmpy/workflows/results.py:ModelfitResults'
+FID_PARSE = 'src/pharmpy/tools/external/nonmem/results.py:_parse_modelfit_results'
 
 # ---- reference renderer (docs/NONMEM.rst and the example files pheno.ext / pheno.phi / pheno.cov) --
 
@@ -2618,11 +2621,11 @@ def _json_check(inp):
             else:
                 d = _json_cmp(a, b, True)
                 if d and all(c != C_J_EXACT for _, c, _ in fails):
-                    fails.append((FID_JSON, C_J_EXACT, f'{tag}: field {f.name}: {d}'))
+                    fails.append((FID_JSON_DF, C_J_EXACT, f'{tag}: field {f.name}: {d}'))
         else:
             same = (a is None and b is None) or (type(a) is type(b) and a == b)
             if not same and all(c != C_J_UNSET for _, c, _ in fails):
-                fails.append((FID_JSON, C_J_UNSET, f'field {f.name} was left at its default {a!r} and came back as {b!r}'))
+                fails.append((FID_MFR, C_J_UNSET, f'field {f.name} was left at its default {a!r} and came back as {b!r}'))
     if inp.get('file'):
         for clause, use_lzma in ((C_J_FILE, False), (C_J_LZMA, True)):
             try:
@@ -2633,9 +2636,9 @@ def _json_check(inp):
                 for f in dataclasses.fields(r):
                     if f.name in kw and _json_cmp(getattr(r2, f.name), getattr(r3, f.name), True):
                         if all(c != clause for _, c, _ in fails):
-                            fails.append((FID_JSON, clause, f'{tag}: field {f.name} differs between string and file form'))
+                            fails.append((FID_JSON_READ, clause, f'{tag}: field {f.name} differs between string and file form'))
             except Exception as e:
-                fails.append((FID_JSON, clause, f'{tag}: raised {type(e).__name__}: {e}'))
+                fails.append((FID_JSON_READ, clause, f'{tag}: raised {type(e).__name__}: {e}'))
     return fails
 
 
